@@ -179,6 +179,376 @@ func clientMethods(p *Program) []*ClientMethod {
 	return out
 }
 
+// builderAsConcat: view of a statement list in which a local strings.Builder that is only fed by
+// WriteString presents itself as string concatenation:
+//
+//	var u strings.Builder ; u.WriteString(a) ; u.WriteString(b)   →   u := a + b
+//	u.WriteString(c) ; u.WriteString(d)   (later)                  →   u += c + d
+//
+// (`u.String()` readers are matched by the consumers). The tree is not changed.
+func builderAsConcat(info *types.Info, list []ast.Stmt) []ast.Stmt {
+	var b types.Object
+	var declAt int
+	for k, st := range list {
+		ds, ok := st.(*ast.DeclStmt)
+		if !ok {
+			continue
+		}
+		gd, ok := ds.Decl.(*ast.GenDecl)
+		if !ok || gd.Tok != token.VAR || len(gd.Specs) != 1 {
+			continue
+		}
+		vs := gd.Specs[0].(*ast.ValueSpec)
+		if len(vs.Names) != 1 || len(vs.Values) != 0 {
+			continue
+		}
+		if o := info.Defs[vs.Names[0]]; o != nil && o.Type().String() == "strings.Builder" {
+			b, declAt = o, k
+			break
+		}
+	}
+	if b == nil {
+		return list
+	}
+	writeArg := func(st ast.Stmt) ast.Expr {
+		es, ok := st.(*ast.ExprStmt)
+		if !ok {
+			return nil
+		}
+		call, ok := es.X.(*ast.CallExpr)
+		if !ok || len(call.Args) != 1 {
+			return nil
+		}
+		sel, ok := call.Fun.(*ast.SelectorExpr)
+		if !ok || sel.Sel.Name != "WriteString" || identObj(info, sel.X) != b {
+			return nil
+		}
+		return call.Args[0]
+	}
+	// every other use of the builder must be u.String()
+	okUses := true
+	for _, st := range list {
+		ast.Inspect(st, func(n ast.Node) bool {
+			if sel, ok := n.(*ast.SelectorExpr); ok && identObj(info, sel.X) == b {
+				if sel.Sel.Name != "WriteString" && sel.Sel.Name != "String" {
+					okUses = false
+				}
+				return false
+			}
+			if id, ok := n.(*ast.Ident); ok && info.Uses[id] == b {
+				okUses = false
+			}
+			return true
+		})
+	}
+	if !okUses {
+		return list
+	}
+	var out []ast.Stmt
+	first := true
+	for k := 0; k < len(list); k++ {
+		if k == declAt {
+			continue
+		}
+		arg := writeArg(list[k])
+		if arg == nil {
+			out = append(out, list[k])
+			continue
+		}
+		sum := arg
+		j := k + 1
+		for j < len(list) {
+			a2 := writeArg(list[j])
+			if a2 == nil {
+				break
+			}
+			be := &ast.BinaryExpr{X: sum, OpPos: a2.Pos(), Op: token.ADD, Y: a2}
+			info.Types[be] = types.TypeAndValue{Type: types.Typ[types.String]}
+			sum = be
+			j++
+		}
+		id := &ast.Ident{NamePos: list[k].Pos(), Name: b.Name()}
+		tok := token.ADD_ASSIGN
+		if first {
+			tok = token.DEFINE
+			info.Defs[id] = b
+			first = false
+		} else {
+			info.Uses[id] = b
+		}
+		out = append(out, &ast.AssignStmt{Lhs: []ast.Expr{id}, TokPos: list[k].Pos(), Tok: tok, Rhs: []ast.Expr{sum}})
+		k = j - 1
+	}
+	return out
+}
+
+// expandVoidClosures: view of a statement list in which a local closure without result and without
+// return statement, used only as the callee of statement calls, is expanded at those calls and its
+// definition dropped (`setQuery := func(k string, v []string) { query[k] = v }` ; `setQuery("a", vs)`
+// →  `query["a"] = vs`). Nested if / block bodies are rewritten as shallow copies; the tree is not changed.
+func expandVoidClosures(p *Program, list []ast.Stmt) []ast.Stmt {
+	info := p.Pkg.TypesInfo
+	ic := p.inliner()
+	// candidates defined in this list
+	cands := map[types.Object]int{}
+	for k, st := range list {
+		as, ok := st.(*ast.AssignStmt)
+		if !ok || as.Tok != token.DEFINE || len(as.Lhs) != 1 || len(as.Rhs) != 1 {
+			continue
+		}
+		fl, ok := ast.Unparen(as.Rhs[0]).(*ast.FuncLit)
+		if !ok || (fl.Type.Results != nil && fl.Type.Results.NumFields() > 0) {
+			continue
+		}
+		if o := info.Defs[as.Lhs[0].(*ast.Ident)]; o != nil && ic.lits[o] == fl {
+			cands[o] = k
+		}
+	}
+	if len(cands) == 0 {
+		return list
+	}
+	// every use must be the callee of an expression statement that expands
+	okUse := map[types.Object]bool{}
+	for o := range cands {
+		okUse[o] = true
+	}
+	var checkUses func(n ast.Node)
+	checkUses = func(n ast.Node) {
+		ast.Inspect(n, func(x ast.Node) bool {
+			if es, ok := x.(*ast.ExprStmt); ok {
+				if call, ok := es.X.(*ast.CallExpr); ok {
+					if o := identObj(info, call.Fun); o != nil {
+						if _, isCand := cands[o]; isCand {
+							if _, ok := ic.expandVoidCall(es); !ok {
+								okUse[o] = false
+							}
+							for _, a := range call.Args {
+								checkUses(a)
+							}
+							return false
+						}
+					}
+				}
+			}
+			if id, ok := x.(*ast.Ident); ok {
+				if o := info.Uses[id]; o != nil {
+					if _, isCand := cands[o]; isCand {
+						okUse[o] = false
+					}
+				}
+			}
+			return true
+		})
+	}
+	for _, st := range list {
+		checkUses(st)
+	}
+	var rewrite func(l []ast.Stmt) []ast.Stmt
+	rewrite = func(l []ast.Stmt) []ast.Stmt {
+		var out []ast.Stmt
+		for _, st := range l {
+			switch x := st.(type) {
+			case *ast.AssignStmt:
+				if x.Tok == token.DEFINE && len(x.Lhs) == 1 {
+					if id, ok := x.Lhs[0].(*ast.Ident); ok {
+						if o := info.Defs[id]; o != nil && okUse[o] {
+							if _, isCand := cands[o]; isCand {
+								continue // the definition
+							}
+						}
+					}
+				}
+				out = append(out, st)
+			case *ast.ExprStmt:
+				if call, ok := x.X.(*ast.CallExpr); ok {
+					if o := identObj(info, call.Fun); o != nil && okUse[o] {
+						if _, isCand := cands[o]; isCand {
+							if exp, ok := ic.expandVoidCall(x); ok {
+								out = append(out, exp...)
+								continue
+							}
+						}
+					}
+				}
+				out = append(out, st)
+			case *ast.IfStmt:
+				cp := *x
+				cp.Body = &ast.BlockStmt{Lbrace: x.Body.Lbrace, List: rewrite(x.Body.List), Rbrace: x.Body.Rbrace}
+				if eb, ok := x.Else.(*ast.BlockStmt); ok {
+					cp.Else = &ast.BlockStmt{Lbrace: eb.Lbrace, List: rewrite(eb.List), Rbrace: eb.Rbrace}
+				}
+				out = append(out, &cp)
+			case *ast.BlockStmt:
+				out = append(out, &ast.BlockStmt{Lbrace: x.Lbrace, List: rewrite(x.List), Rbrace: x.Rbrace})
+			default:
+				out = append(out, st)
+			}
+		}
+		return out
+	}
+	return rewrite(list)
+}
+
+// rowsTableAsCalls: view of a statement list in which a local table of fixed-size rows that is only
+// appended to and then applied by one loop presents itself as the calls the loop makes:
+//
+//	T := make([][2]string, 0, n) ; T = append(T, [2]string{a, b}) … ; for _, r := range T { f(r[0], r[1]) }
+//	  →  f(a, b) at the position of every append (also inside if bodies), in the same order
+//
+// Exact when nothing between the first append and the loop observes what f changes; the consumers
+// accept only statements of the header section there. The tree is not changed.
+func rowsTableAsCalls(info *types.Info, list []ast.Stmt) []ast.Stmt {
+	var T types.Object
+	defAt, loopAt := -1, -1
+	var loop *ast.RangeStmt
+	for k, st := range list {
+		as, ok := st.(*ast.AssignStmt)
+		if !ok || as.Tok != token.DEFINE || len(as.Lhs) != 1 || len(as.Rhs) != 1 {
+			continue
+		}
+		call, ok := as.Rhs[0].(*ast.CallExpr)
+		if !ok || types.ExprString(call.Fun) != "make" || len(call.Args) < 2 {
+			continue
+		}
+		if tv := info.Types[call.Args[1]]; tv.Value == nil || tv.Value.String() != "0" {
+			continue
+		}
+		t := info.TypeOf(call)
+		sl, isSl := t.Underlying().(*types.Slice)
+		if !isSl {
+			continue
+		}
+		if _, isArr := sl.Elem().Underlying().(*types.Array); !isArr {
+			continue
+		}
+		o := info.Defs[as.Lhs[0].(*ast.Ident)]
+		// the applying loop
+		for j := k + 1; j < len(list); j++ {
+			if rs, ok := list[j].(*ast.RangeStmt); ok && identObj(info, rs.X) == o && rs.Value != nil && len(rs.Body.List) == 1 {
+				if key, isId := rs.Key.(*ast.Ident); rs.Key == nil || (isId && key.Name == "_") {
+					if _, isCall := rs.Body.List[0].(*ast.ExprStmt); isCall {
+						T, defAt, loopAt, loop = o, k, j, rs
+					}
+				}
+			}
+		}
+		if T != nil {
+			break
+		}
+	}
+	if T == nil {
+		return list
+	}
+	rowVar := identObj(info, loop.Value)
+	tmpl, _ := loop.Body.List[0].(*ast.ExprStmt).X.(*ast.CallExpr)
+	if tmpl == nil || rowVar == nil {
+		return list
+	}
+	// the call's arguments must be exactly row[0], row[1], … ; its callee must not mention the row
+	for i, a := range tmpl.Args {
+		ix, ok := ast.Unparen(a).(*ast.IndexExpr)
+		if !ok || identObj(info, ix.X) != rowVar {
+			return list
+		}
+		if tv := info.Types[ix.Index]; tv.Value == nil || tv.Value.String() != fmt.Sprint(i) {
+			return list
+		}
+	}
+	if usesObj(info, tmpl.Fun, rowVar) {
+		return list
+	}
+	appendOf := func(st ast.Stmt) *ast.CompositeLit {
+		as, ok := st.(*ast.AssignStmt)
+		if !ok || as.Tok != token.ASSIGN || len(as.Lhs) != 1 || len(as.Rhs) != 1 || identObj(info, as.Lhs[0]) != T {
+			return nil
+		}
+		call, ok := as.Rhs[0].(*ast.CallExpr)
+		if !ok || types.ExprString(call.Fun) != "append" || len(call.Args) != 2 || identObj(info, call.Args[0]) != T || call.Ellipsis.IsValid() {
+			return nil
+		}
+		cl, ok := ast.Unparen(call.Args[1]).(*ast.CompositeLit)
+		if !ok || len(cl.Elts) != len(tmpl.Args) {
+			return nil
+		}
+		for _, el := range cl.Elts {
+			if _, keyed := el.(*ast.KeyValueExpr); keyed {
+				return nil
+			}
+		}
+		return cl
+	}
+	// every use of T between its definition and the loop must be such an append
+	okUses := true
+	var check func(l []ast.Stmt)
+	check = func(l []ast.Stmt) {
+		for _, st := range l {
+			if appendOf(st) != nil {
+				continue
+			}
+			switch x := st.(type) {
+			case *ast.IfStmt:
+				if x.Init != nil && usesObj(info, x.Init, T) || usesObj(info, x.Cond, T) {
+					okUses = false
+				}
+				check(x.Body.List)
+				if eb, ok := x.Else.(*ast.BlockStmt); ok {
+					check(eb.List)
+				} else if x.Else != nil {
+					okUses = false
+				}
+			case *ast.BlockStmt:
+				check(x.List)
+			default:
+				if usesObj(info, st, T) {
+					okUses = false
+				}
+			}
+		}
+	}
+	check(list[defAt+1 : loopAt])
+	for _, st := range list[loopAt+1:] {
+		if usesObj(info, st, T) {
+			okUses = false
+		}
+	}
+	if !okUses {
+		return list
+	}
+	var rewrite func(l []ast.Stmt) []ast.Stmt
+	rewrite = func(l []ast.Stmt) []ast.Stmt {
+		var out []ast.Stmt
+		for _, st := range l {
+			if cl := appendOf(st); cl != nil {
+				call := &ast.CallExpr{Fun: tmpl.Fun, Lparen: st.Pos(), Args: append([]ast.Expr{}, cl.Elts...), Rparen: st.End()}
+				if tv, ok := info.Types[tmpl]; ok {
+					info.Types[call] = tv
+				}
+				out = append(out, &ast.ExprStmt{X: call})
+				continue
+			}
+			switch x := st.(type) {
+			case *ast.IfStmt:
+				cp := *x
+				cp.Body = &ast.BlockStmt{Lbrace: x.Body.Lbrace, List: rewrite(x.Body.List), Rbrace: x.Body.Rbrace}
+				if eb, ok := x.Else.(*ast.BlockStmt); ok {
+					cp.Else = &ast.BlockStmt{Lbrace: eb.Lbrace, List: rewrite(eb.List), Rbrace: eb.Rbrace}
+				}
+				out = append(out, &cp)
+			case *ast.BlockStmt:
+				out = append(out, &ast.BlockStmt{Lbrace: x.Lbrace, List: rewrite(x.List), Rbrace: x.Rbrace})
+			default:
+				out = append(out, st)
+			}
+		}
+		return out
+	}
+	var out []ast.Stmt
+	out = append(out, list[:defAt]...)
+	out = append(out, rewrite(list[defAt+1:loopAt])...)
+	out = append(out, list[loopAt+1:]...)
+	return out
+}
+
 func buildClientMethod(p *Program, fd *ast.FuncDecl, sig *types.Signature) *ClientMethod {
 	info := p.Pkg.TypesInfo
 	m := &ClientMethod{Name: fd.Name.Name, Decl: fd, ReqType: sig.Params().At(1).Type(), RespIface: sig.Results().At(0).Type(), Body: "none"}
@@ -186,7 +556,7 @@ func buildClientMethod(p *Program, fd *ast.FuncDecl, sig *types.Signature) *Clie
 	rc := &rmCtx{p: p, info: info, recv: recvObj(info, fd)}
 	ps := paramObjs(info, fd)
 	ctx, request := ps[0], ps[1]
-	list := mergeCommaOk(info, fd.Body.List)
+	list := rowsTableAsCalls(info, expandVoidClosures(p, builderAsConcat(info, mergeCommaOk(info, fd.Body.List))))
 	i := 0
 	// request field selector: request.<Sec>.<F>
 	reqField := func(e ast.Expr) (sec string, fld *types.Var) {
@@ -309,6 +679,20 @@ func buildClientMethod(p *Program, fd *ast.FuncDecl, sig *types.Signature) *Clie
 					break
 				}
 			}
+			if ds, isDecl := st.(*ast.DeclStmt); isDecl {
+				// `var queryValues []string`: a temporary shared by the rows (each row assigns it before use)
+				if gd, ok := ds.Decl.(*ast.GenDecl); ok && gd.Tok == token.VAR {
+					bare := true
+					for _, sp := range gd.Specs {
+						if vs, ok := sp.(*ast.ValueSpec); !ok || len(vs.Values) > 0 {
+							bare = false
+						}
+					}
+					if bare {
+						continue
+					}
+				}
+			}
 			row := &ClientReqRow{In: "query", Pos: st.Pos()}
 			unit := ast.Node(st)
 			var alias types.Object
@@ -396,8 +780,26 @@ func buildClientMethod(p *Program, fd *ast.FuncDecl, sig *types.Signature) *Clie
 				return true
 			})
 			// []string passed through: query[K] = request.Query.F / qvOpt
-			if t := info.TypeOf(store.Rhs[0]); t != nil {
-				if _, isLit := store.Rhs[0].(*ast.CompositeLit); !isLit {
+			stored := store.Rhs[0]
+			if o := identObj(info, stored); o != nil {
+				// a temporary assigned once in this row: judge what it was assigned
+				var defs []ast.Expr
+				ast.Inspect(unit, func(x ast.Node) bool {
+					if as, ok := x.(*ast.AssignStmt); ok && as != store && len(as.Lhs) == len(as.Rhs) {
+						for j, l := range as.Lhs {
+							if identObj(info, l) == o {
+								defs = append(defs, as.Rhs[j])
+							}
+						}
+					}
+					return true
+				})
+				if len(defs) == 1 {
+					stored = defs[0]
+				}
+			}
+			if t := info.TypeOf(stored); t != nil {
+				if _, isLit := ast.Unparen(stored).(*ast.CompositeLit); !isLit {
 					if sl, ok := t.Underlying().(*types.Slice); ok && types.Identical(sl.Elem(), types.Typ[types.String]) {
 						row.Array = true
 					}
@@ -447,7 +849,14 @@ func buildClientMethod(p *Program, fd *ast.FuncDecl, sig *types.Signature) *Clie
 				if s, ok := rc.constStr(call.Args[1]); ok {
 					m.Method = s
 				}
-				if types.ExprString(call.Args[2]) != "requestURL" {
+				urlArg := ast.Unparen(call.Args[2])
+				if sc, isCall := urlArg.(*ast.CallExpr); isCall && len(sc.Args) == 0 {
+					// requestURL.String() of the strings.Builder spelling
+					if sel, isSel := sc.Fun.(*ast.SelectorExpr); isSel && sel.Sel.Name == "String" {
+						urlArg = sel.X
+					}
+				}
+				if urlObj == nil || identObj(info, urlArg) != urlObj {
 					und("request is not created with requestURL")
 				}
 				switch b := call.Args[3].(type) {
@@ -678,6 +1087,14 @@ func buildClientArm(p *Program, fd *ast.FuncDecl, cl *ast.CaseClause, respObj, c
 			// hs = resp.Header.Values(K) (or hs := …, a variable per header) ; followed by if
 			if len(st.Lhs) == 1 && len(st.Rhs) == 1 && identObj(info, st.Lhs[0]) != nil {
 				call, ok := st.Rhs[0].(*ast.CallExpr)
+				if ok && calleeName(info, call) != "net/http.Header.Values" {
+					// the lookup behind a one-expression helper: responseHeaderValues(resp.Header, K)
+					if e, ok2 := p.inliner().expandExprCall(call); ok2 {
+						if ec, ok3 := ast.Unparen(e).(*ast.CallExpr); ok3 {
+							call = ec
+						}
+					}
+				}
 				if ok && calleeName(info, call) == "net/http.Header.Values" && len(call.Args) == 1 && strings.HasPrefix(types.ExprString(call.Fun), rn+".Header.") {
 					hsObj := identObj(info, st.Lhs[0])
 					row := &ParamRow{In: "header", Pos: st.Pos()}
@@ -690,9 +1107,19 @@ func buildClientArm(p *Program, fd *ast.FuncDecl, cl *ast.CaseClause, respObj, c
 					row.Key = k
 					if i+1 < len(list)-1 {
 						if ifs, ok := list[i+1].(*ast.IfStmt); ok {
-							blk := &ast.BlockStmt{Lbrace: ifs.Pos(), List: []ast.Stmt{ifs}, Rbrace: ifs.End()}
+							// the block of this header: its if statement, or a guard clause followed by the
+							// parse (`if len(hs) == 0 { return … }` ; `if len(hs) > 0 { … }`)
+							grp := []ast.Stmt{ifs}
+							for i+1+len(grp) < len(list)-1 {
+								nx, isIf := list[i+1+len(grp)].(*ast.IfStmt)
+								if !isIf || nx.Init != nil || !usesObj(info, nx.Cond, hsObj) {
+									break
+								}
+								grp = append(grp, nx)
+							}
+							blk := &ast.BlockStmt{Lbrace: ifs.Pos(), List: grp, Rbrace: grp[len(grp)-1].End()}
 							c.typestate(row, blk, hsObj, nil, false)
-							i++
+							i += len(grp)
 							continue
 						}
 					}
